@@ -42,7 +42,7 @@ def reader_self(nbits=None):
 def register(reg):
     MODS = ["self.ifile_cur", "self.file_obj"]
     # the positioned-read chain under the generator: also run by the streaming reductions and transforms that consume it
-    CH = ["C02", "C01", "C06", "C07"]
+    CH = ["C02", "C01", "C06", "C07", "C09", "C11", "C16", "C20"]
 
     # ---- assumed contracts (np.cumsum / sum of the per-file datalen list: A-NP)
     c = Contract(S + "StreamInfo.cumsum_datalens", props=CH, trusted=True,
@@ -186,7 +186,7 @@ def register(reg):
     reg.add(c)
 
     # ---- lemma: csum is monotone (induction), used as an axiom by the stream contracts
-    c = Contract("verif:specs/clients.py::lemma_csum_mono", props=["C02", "C01"], no_lemma_axioms=True,
+    c = Contract("verif:specs/clients.py::lemma_csum_mono", props=["C02", "C01", "C06", "C07", "C09", "C11", "C16", "C20"], no_lemma_axioms=True,
                  params={"a": Int(), "b": Int()}, requires=STREAM + ["0 <= a and a <= b and b <= nf()"],
                  decreases="b - a")
     c.ensure("monotone", "csum(a) <= csum(b)")
